@@ -115,6 +115,12 @@ def c07():
     return table_engine.c07()
 
 
+@prop("C08")
+def c08():
+    from . import table_engine
+    return table_engine.c08()
+
+
 def replay(path):
     if not path or not os.path.exists(path):
         print("usage: check replay <replays/...json>")
